@@ -259,7 +259,10 @@ void sh_match()
         probe ps, pf;
         EI const r = fcppt::either::construct(b != 0, fn0<D>(s, ps, mk_d), fn0<E>(f, pf, mk_e));
         CK(code(r) == (b ? 2 + s : f), "either::construct:result", "got %s", sh(code(r)).c_str());
-        CK(ps.is(b, s) && pf.is(!b, f), "either::construct:calls", "success fn %s failure fn %s", ps.show().c_str(), pf.show().c_str());
+        // the selected function is evaluated once ("_success() is returned" / "_failure() is returned"); that the other one is
+        // left alone is not promised by the documentation -> information only
+        CK(b ? ps.is(1, s) : pf.is(1, f), "either::construct:calls", "success fn %s failure fn %s", ps.show().c_str(), pf.show().c_str());
+        INFO_ONLY(b ? pf.calls == 0 : ps.calls == 0, "either::construct:other_function_called");
       }
   for (int cat = 0; cat < 3; ++cat)
     for (int m = 0; m < 4; ++m)
@@ -275,7 +278,12 @@ void sh_match()
         auto const ffn = fn0<E>(f, p, mk_e);
         EI const r = call_cat(cat, o, [&](auto &&x) { return fcppt::either::from_optional(std::forward<decltype(x)>(x), ffn); });
         CK(code(r) == (m == 0 ? f : 1 + m), "either::from_optional:result", "got %s", sh(code(r)).c_str());
-        CK(p.is(m == 0, f), "either::from_optional:calls", "%s", p.show().c_str());
+        // "otherwise _failure_function() is returned as the failure value": one evaluation when empty; laziness when set is
+        // not promised by the documentation -> information only
+        if (m == 0)
+          CK(p.is(1, f), "either::from_optional:calls", "%s", p.show().c_str());
+        else
+          INFO_ONLY(p.calls == 0, "either::from_optional:failure_function_called_although_set");
         if (cat < 2)
           CK(code(o) == m, "either::from_optional:source_modified", "lvalue source is now %s", show_opt(code(o)).c_str());
         // error_from_optional: set -> failure, unset -> no_error
@@ -834,7 +842,9 @@ void sh_containers()
       CK(r.has_failure() && vals(r.get_failure_unsafe()) == fails, "either::first_success:failures", "want failures %s, got %s", show_seq(fails, show_int).c_str(),
          r.has_failure() ? show_seq(vals(r.get_failure_unsafe()), show_int).c_str() : "success");
     for (std::size_t i = 0; i < s.size(); ++i)
-      CK(probes[i].calls == (i <= first ? 1 : 0), "either::first_success:calls", "function %zu called %d times (first success at %zu)", i, probes[i].calls, first);
+      // the documentation fixes the result only ("let i be the smallest index such that f_i() returns success"), not how often
+      // or whether the functions behind the first success are called -> information only
+      INFO_ONLY(probes[i].calls == (i <= first ? 1 : 0), "either::first_success:calls");
   }
   // loop: next() yields the successes of `s` (values 0..2) in order, then the failure e for ever
   auto const runs = all_seqs(3, max_len());
